@@ -105,6 +105,10 @@ type Sim struct {
 	ClockSkew int64
 }
 
+// Deep is set by the worker for the thorough tier: worlds widen their bounds
+// (more tasks, more operations, larger rings).
+var Deep bool
+
 // S is the simulation in progress (nil outside a run). Only the baton holder
 // (or the driver before start / after end) touches it.
 var S *Sim
